@@ -90,17 +90,18 @@ Print Assumptions C11_teardown_releases_guards_v2_shipped_refuted.
 
 (* ================================================================================================
    The default engine (v1) satisfies the statements for EVERY interleaving in which no Start takes its
-   status check while the status is Recovering (polite_run); the refutations above all go through a
+   status check while the status is Recovering (polite_run) and the store write of UpdateStatus(StatusRunning)
+   does not fail (c_stfail c = false; with it both engines are refuted, see the end of this file); the refutations above all go through a
    Start admitted during the recovery back-off.  Proof: inductive invariant Life/RunMapInv.v (Inv). *)
 From Verif Require Import Life.RunMapInv.
 
 Theorem C11_running_implies_map_is_live_v1_partial : forall c acts s,
-  c_engine c = V1 -> polite_run c init acts -> run_acts c init acts = Some s ->
+  c_engine c = V1 -> c_stfail c = false -> polite_run c init acts -> run_acts c init acts = Some s ->
   s_status s = Running ->
   exists r, s_map s = Some r /\ s_cur s = Some r /\ alive (s_runs s r).
 Proof.
-  intros c acts s Hv Hp Hr. apply running_implies_map_is_live_inv.
-  exact (proj1 (run_Inv_GG c acts Hv init s Inv_init GG_init Hp Hr)).
+  intros c acts s Hv Hsf Hp Hr. apply running_implies_map_is_live_inv.
+  exact (proj1 (run_Inv_GG c acts Hv Hsf init s Inv_init GG_init Hp Hr)).
 Qed.
 Print Assumptions C11_running_implies_map_is_live_v1_partial.
 
@@ -108,32 +109,32 @@ Print Assumptions C11_running_implies_map_is_live_v1_partial.
    announced Running (same statement: they resolve through the map), and a wait that joined run r returns
    the result of r's tomb *)
 Theorem C11_wait_returns_that_runs_result_v1_partial : forall c acts s,
-  c_engine c = V1 -> polite_run c init acts -> run_acts c init acts = Some s ->
+  c_engine c = V1 -> c_stfail c = false -> polite_run c init acts -> run_acts c init acts = Some s ->
   (s_status s = Running -> exists r, s_map s = Some r /\ s_cur s = Some r /\ alive (s_runs s r))
   /\ (forall id r s' l, get_wait (s_waits s) id = Some (WJoin r) -> waiter_step s id = Some (s', l) ->
         exists x, r_res (s_runs s r) = Some x /\ r < s_next s /\ l = LTau).
 Proof.
-  intros c acts s Hv Hp Hr. split.
-  - apply running_implies_map_is_live_inv. exact (proj1 (run_Inv_GG c acts Hv init s Inv_init GG_init Hp Hr)).
+  intros c acts s Hv Hsf Hp Hr. split.
+  - apply running_implies_map_is_live_inv. exact (proj1 (run_Inv_GG c acts Hv Hsf init s Inv_init GG_init Hp Hr)).
   - intros id r s' l. apply wait_returns_joined_result.
 Qed.
 Print Assumptions C11_wait_returns_that_runs_result_v1_partial.
 
 Theorem C11_status_agrees_with_last_run_end_v1_partial : forall c acts s,
-  c_engine c = V1 -> polite_run c init acts -> run_acts c init acts = Some s ->
+  c_engine c = V1 -> c_stfail c = false -> polite_run c init acts -> run_acts c init acts = Some s ->
   quiescent s = true -> agrees s = true.
 Proof.
-  intros c acts s Hv Hp Hr. apply status_agrees_inv.
-  exact (proj1 (run_Inv_GG c acts Hv init s Inv_init GG_init Hp Hr)).
+  intros c acts s Hv Hsf Hp Hr. apply status_agrees_inv.
+  exact (proj1 (run_Inv_GG c acts Hv Hsf init s Inv_init GG_init Hp Hr)).
 Qed.
 Print Assumptions C11_status_agrees_with_last_run_end_v1_partial.
 
 Theorem C11_teardown_releases_guards_v1_partial : forall c acts s,
-  c_engine c = V1 -> polite_run c init acts -> run_acts c init acts = Some s ->
+  c_engine c = V1 -> c_stfail c = false -> polite_run c init acts -> run_acts c init acts = Some s ->
   quiescent s = true -> live_runs s = [] -> guards_free s = true.
 Proof.
-  intros c acts s Hv Hp Hr.
-  destruct (run_Inv_GG c acts Hv init s Inv_init GG_init Hp Hr) as [HI HG].
+  intros c acts s Hv Hsf Hp Hr.
+  destruct (run_Inv_GG c acts Hv Hsf init s Inv_init GG_init Hp Hr) as [HI HG].
   apply guards_released_inv; assumption.
 Qed.
 Print Assumptions C11_teardown_releases_guards_v1_partial.
@@ -230,6 +231,43 @@ Example C11_shipped_witnesses_repaired_v2 :
       | None => false
       end = true).
 Proof. exact (conj blind_delete_repaired_v2 proc_open_fail_repaired_v2). Qed.
+
+(* ================================================================================================
+   A failing store write of UpdateStatus(StatusRunning) is an action of the model (c_stfail). The statements are
+   refuted with it, in both engines (open findings, keyed <engine>/failed-running-write/...): *)
+Theorem C11_running_implies_map_is_live_failed_write_v1_refuted :
+  match trace (cfg_v1_io true) init (w_stfail_start_v1 ++ [ACall KStop 1] ++ user 2) with
+  | Some (ls, s) => quiescent s && status_eqb (s_status s) Running && onat_eqb (s_map s) None && is_live (s_runs s 0)
+                    && negb (agrees s)
+                    && has_label (fun l => match l with LRet 0 RetErr => true | _ => false end) ls
+                    && has_label (fun l => match l with LRet 1 RetNotRunning => true | _ => false end) ls
+  | None => false
+  end = true.
+Proof. exact stfail_start_leaks_run_v1. Qed.
+Print Assumptions C11_running_implies_map_is_live_failed_write_v1_refuted.
+
+Theorem C11_status_agrees_failed_write_at_restart_refuted :
+  (match final (cfg_v1_io true) w_stfail_restart_v1 with
+   | Some s => quiescent s && status_eqb (s_status s) Degraded && is_live (s_runs s 1) && negb (agrees s)
+   | None => false
+   end = true)
+  /\ (match final (cfg_v2_io true) w_stfail_restart_v2 with
+      | Some s => quiescent s && status_eqb (s_status s) Degraded && is_live (s_runs s 1) && negb (agrees s)
+                  && negb (guards_free s)
+      | None => false
+      end = true).
+Proof. exact (conj stfail_restart_leaks_run_v1 stfail_restart_leaks_run_v2). Qed.
+Print Assumptions C11_status_agrees_failed_write_at_restart_refuted.
+
+(* v2, the write fails at the user's Start: startupDone is closed all the same, the run can be stopped *)
+Example C11_failed_write_at_start_is_stoppable_v2 :
+  match trace (cfg_v2_io true) init w_stfail_start_v2 with
+  | Some (ls, s) => quiescent s && agrees s && guards_free s && status_eqb (s_status s) UserStopped
+                    && has_label (fun l => match l with LRet 0 RetErr => true | _ => false end) ls
+                    && has_label (fun l => match l with LRet 1 RetNil => true | _ => false end) ls
+  | None => false
+  end = true.
+Proof. exact stfail_start_stoppable_v2. Qed.
 
 (* ================================================================================================
    Tie between the theorems and the observed behaviour: the trace acceptor is sound. Every event log of
